@@ -42,6 +42,7 @@ var c14Pool = []string{"a.co", "a.com.cn", "a.com", "b.com", "c.com", "d.com", "
 // deletions re-join nodes along a chain, and a domain with non-ASCII letters.
 var c14NestPool = []string{"{sub}.a.com", "{sub}.a.com.cn", "{sub}.a.org", "{sub}.a.co", "\u00e9cole.com", "{sub}.\u00e9cole.com",
 	"{Sub:\\D+}.B.net", // a name and a rule with capitals: only the text outside the braces is case-insensitive
+	"{t}.com", // competes with {sub}.a.com for x.a.com: whichever wins, deleting a third domain must not change it
 	"{sub:digit}.c.com", "{sub:digit}.c.org"} // two domains sharing a rule that RegisterInterceptor can turn from a regexp into an interceptor
 
 type c14Cfg struct {
@@ -252,6 +253,7 @@ func c14HostsOf(family int) []string {
 		w = strings.ReplaceAll(w, `{sub:\d+}`, "7")
 		w = strings.ReplaceAll(w, "{sub:digit}", "8")
 		w = strings.ReplaceAll(w, "{sub}", "x1")
+		w = strings.ReplaceAll(w, "{t}", "x1.a")
 		w = strings.ReplaceAll(w, "{Sub:\\D+}", "xy")
 		w = strings.ReplaceAll(w, "{-s}", "yy")
 		for _, f := range []string{w, strings.ToUpper(w), w + ":80", w + ":", w + ":8x", "[" + w + "]", "[" + w + "]:80", "[" + w + "]:",
